@@ -268,5 +268,18 @@ def render(spec):
 
 
 def today_tokens():
-    t = datetime.date.today()
-    return [t.isoformat(), t.strftime('%d/%m/%Y'), t.strftime('%d %b %Y')]
+    """Dates gentest may take for "now": the day of the run and, as documented, the day before and the day after."""
+    out = []
+    for k in (0, -1, 1):
+        t = datetime.date.today() + datetime.timedelta(days=k)
+        out += [t.isoformat(), t.strftime('%d/%m/%Y'), t.strftime('%d %b %Y')]
+    return out
+
+
+def near_dates():
+    """Dates just OUTSIDE that window (two and three days away): ordinary content, not run-specific."""
+    out = []
+    for k in (2, -2, 3):
+        t = datetime.date.today() + datetime.timedelta(days=k)
+        out += [t.isoformat(), t.strftime('%d/%m/%Y')]
+    return out
